@@ -30,8 +30,23 @@ RefuseRecursion(o) == o.outcome = "raise" /\ o.exc = "RecursionError" /\ o.deep 
 
 Explained(o) == Return(o) \/ RefuseVerb(o) \/ RefusePygments(o) \/ RefuseRecursion(o)
 
+(* static configuration (mechanism, reported as drift unless a witness document really fails): every token class that the
+   active token lists of a renderer can produce has a render function.  `active` and `keys` are read by introspection. *)
+Produces(t) ==
+    CASE t = "CoreTokens" -> {"Strong", "Emphasis", "Link", "Image"}
+      [] t = "Paragraph"  -> {"Paragraph", "SetextHeading"}
+      [] t = "List"       -> {"List", "ListItem"}
+      [] t = "Table"      -> {"Table", "TableRow", "TableCell"}
+      [] t = "LinkReferenceDefinitionBlock" -> {"LinkReferenceDefinitionBlock", "LinkReferenceDefinition"}
+      [] t \in {"Footnote", "Whitespace"} -> {}
+      [] OTHER -> {t}
+Producible(active) == {"Document"} \cup UNION {Produces(active[i]) : i \in DOMAIN active}
+Uncovered(r) == Producible(r.active) \ {r.keys[i] : i \in DOMAIN r.keys}
+
 Judge(o) ==
-    IF Explained(o) THEN "ok"
+    IF "law" \in DOMAIN o /\ o.law = "render-map"
+    THEN (IF Uncovered(o) = {} THEN "ok" ELSE "RenderMap.no-render-function-for-" \o (CHOOSE t \in Uncovered(o) : TRUE))
+    ELSE IF Explained(o) THEN "ok"
     ELSE IF o.outcome = "timeout" THEN "Totality.timeout"
     ELSE IF o.outcome = "return" THEN "Totality.non-string-result"
     ELSE "Totality." \o o.exc
